@@ -19,9 +19,12 @@ func init() {
 		thorough = append(thorough, &Job{Pkg: "", Func: "ZZ_C11_Race", Args: []int64{0, 0, entry, (entry + 1) % 3}, Bounds: b})
 		thorough = append(thorough, &Job{Pkg: "", Func: "ZZ_C11_Race", Args: []int64{2, (entry + 1) % 2, entry, (entry + 2) % 3}, Bounds: b})
 	}
+	for _, c := range [][]int64{{0, 0, 1}, {2, 1, 0}, {1, 0, 2}} {
+		quick = append(quick, &Job{Pkg: "", Func: "ZZ_C11_ReadFromRace", Args: c, Bounds: "a two-chunk ReadFrom racing with Close; a chunk whose write began after Close had returned must fail"})
+	}
 	Specs["C11"] = &Spec{
 		Jobs: jobsBy(quick, thorough), Labels: labelFilter("c11-"),
-		MustReach: []string{"c11-after-close-done", "c11-race-done", "c11-race-write-began-after-close"},
+		MustReach: []string{"c11-after-close-done", "c11-race-done", "c11-race-write-began-after-close", "c11-readfrom-race-done", "c11-chunk-began-after-close"},
 		Bounds: map[string]string{
 			"quick":    "all 7 entry points with Close(nil) and one other Close argument each, synchronous and queue-2 channels, with or without a payload sent before the Close; a write racing with Close on a queue-1 channel for every entry point (the assertion applies when Close had returned before the call began)",
 			"thorough": "all 7 x 3 x {sync, queue 1, queue 2} combinations; races on sync and queue-2 channels",
